@@ -32,7 +32,7 @@ def iscsimod():
 
 
 @contextlib.contextmanager
-def world_installed(world):
+def world_installed(world, has_sgio=True, has_iscsi=True):
     """route the externals of both device modules to `world` for the duration of one run"""
     dm, im = devmod(), iscsimod()
     saved = (dm.__dict__.get("open", _MISSING), dm.os, dm.sgio if hasattr(dm, "sgio") else _MISSING, dm._has_sgio,
@@ -40,9 +40,9 @@ def world_installed(world):
     dm.open = world.open
     dm.os = SimpleNamespace(stat=world.stat)
     dm.sgio = stub_sgio
-    dm._has_sgio = True
+    dm._has_sgio = has_sgio
     im.iscsi = stub_iscsi
-    im._has_iscsi = True
+    im._has_iscsi = has_iscsi
     stub_sgio.WORLD = world
     stub_iscsi.WORLD = world
     try:
